@@ -108,6 +108,9 @@ theorem step_inv (m m' : Migration) (s : Stmt) (h : m.Inv) (hf : renameFresh id 
     have := pure_ok hs; subst this
     exact Migration.using_inv m1 t (Migration.removeIndex_inv m m1 t _ h h1)
   | commentOn t c text => unfold step at hs; cases hs
+  | alterType t c typ => unfold step at hs; cases hs
+  | setDefault t c d => unfold step at hs; cases hs
+  | dropNotNull t c => unfold step at hs; cases hs
 
 theorem run_inv (ss : List Stmt) : ∀ (m m' : Migration), m.Inv → RenameFresh id step m ss → run m ss = .ok m' →
     m'.Inv := by
@@ -187,6 +190,9 @@ theorem step_inv (m m' : Migration) (s : Stmt) (h : m.Inv) (hf : renameFresh pgN
   | createIndex t name cols uniq usingT => unfold step at hs; exact Migration.addIndex_inv m m' _ _ h hs
   | dropIndex t name => unfold step at hs; exact Migration.removeIndex_inv m m' _ _ h hs
   | commentOn t c text => unfold step at hs; exact Migration.addComment_inv m m' _ _ _ h hs
+  | alterType t c typ => unfold step at hs; exact Migration.addColumn_inv m m' _ _ _ h hs
+  | setDefault t c d => unfold step at hs; exact Migration.addColumn_inv m m' _ _ _ h hs
+  | dropNotNull t c => unfold step at hs; have := pure_ok hs; subst this; exact h
 
 theorem steps_inv (ss : List Stmt) : ∀ (m m' : Migration), m.Inv → RenameFresh pgName step m ss →
     ss.foldlM step m = .ok m' → m'.Inv := by
@@ -241,6 +247,9 @@ theorem step_inv (m m' : Migration) (s : Stmt) (h : m.Inv) (hs : step m s = .ok 
   | renameIndex t o n => unfold step at hs; cases hs
   | dropIndex t name => unfold step at hs; cases hs
   | commentOn t c text => unfold step at hs; cases hs
+  | alterType t c typ => unfold step at hs; cases hs
+  | setDefault t c d => unfold step at hs; cases hs
+  | dropNotNull t c => unfold step at hs; cases hs
 
 theorem run_inv (ss : List Stmt) (m m' : Migration) (h : m.Inv) (hs : run m ss = .ok m') : m'.Inv :=
   foldlM_inv Migration.Inv step (fun a a' s ha hs => step_inv a a' s ha hs) ss m m' h hs
